@@ -81,9 +81,19 @@ def rnd_mcv(rng):
 
 def op_event(rng, sh, size=None):
     n = rng.choice(PAYLOAD_SIZES) if size is None else size
-    sh.add(12 + n)
     pl = rnd_payload(rng, n)
-    sp = rnd_split(rng, n)
+    # order of the set_mcv / set_clock / payload_add calls (rtdrv): usual, payload first, mcv first,
+    # or the previous event structure used again with only mcv and clock set anew (same payload)
+    order = rng.choice(["", "", "", "", "p:", "m:", "r:"])
+    last = getattr(sh, "last_pl", None)
+    if order == "r:":
+        if last is not None and (size is None or len(last) == n):
+            pl, n = last, len(last)
+        else:
+            order = "p:"
+    sh.last_pl = pl
+    sh.add(12 + n)
+    sp = order + (rnd_split(rng, n) or "")
     return "ev %s %s %s%s" % (rnd_mcv(rng), rnd_clock(rng), pl.hex() if n else "-", " " + sp if sp else "")
 
 
